@@ -116,7 +116,22 @@ func (w *World) newConcShared(stepSeed string) *concShared {
 		if cerr == nil {
 			c.docs = append(c.docs, doc)
 			basic := Swarm{Patches: []string{"add-public-keys", "remove-public-keys", "add-services", "remove-services", "add-also-known-as", "remove-also-known-as", "replace"}}
-			c.patchSets = append(c.patchSets, resolveForGen(w.Pool, genPatches(r, w.Pool, &basic, 3, &other)))
+			ps := resolveForGen(w.Pool, genPatches(r, w.Pool, &basic, 3, &other))
+			if rj := r.Stream("ietf"); rj.Chance(1, 2) {
+				// RFC 6902 lists too: ordinary ones, and ones on which the RFC 6902 library panics (the composer turns the panic into an
+				// error: whatever it holds at that moment - buffers, pooled objects - is released on an unusual path)
+				ps = append(ps, map[string]any{"action": "ietf-json-patch", "patches": genRFC6902Clean(rj, doc)})
+				if rj.Chance(1, 2) {
+					boom := core.Pick(rj, [][]any{
+						{map[string]any{"op": "add", "path": "/tags", "value": []any{"t1", "t2"}}, map[string]any{"op": "replace", "path": "/tags/-1", "value": "boom"}},
+						{map[string]any{"op": "add", "path": "/n0", "value": "x"}, map[string]any{"op": "test", "path": "/n0", "value": nil}},
+						{map[string]any{"op": "add", "path": "/tags", "value": []any{"t1"}}, map[string]any{"op": "remove", "path": "/tags/-1"}},
+					})
+					k := rj.Intn(len(ps) + 1)
+					ps = append(ps[:k:k], append([]any{map[string]any{"action": "ietf-json-patch", "patches": boom}}, ps[k:]...)...)
+				}
+			}
+			c.patchSets = append(c.patchSets, ps)
 		}
 		// long-form DIDs of the long-form protocol
 		lf := []any{map[string]any{"action": "add-public-keys", "publicKeys": []any{map[string]any{"id": fmt.Sprintf("k%d", i), "type": "JsonWebKey2020",
